@@ -57,7 +57,8 @@ package zenodb
 
 // C17: the shared scan feeds every coalesced iteration that is still running exactly once per row, whatever the other
 // iterations do: one that stops early (LIMIT) is removed and never fed again, and its removal does not make any other
-// iteration miss the row. (callsOn(it, "onValue") counts the calls of it.onValue.)
+// iteration miss the row; the scan is told to continue exactly when some iteration is still running. (callsOn(it, "onValue")
+// counts the calls of it.onValue.)
 //@ func (*DB).doProcessIterations$2
 //@   requires distinct: forall j :: forall k :: has(remainingIterations, j) && has(remainingIterations, k) && j != k ==> remainingIterations[j] != remainingIterations[k]
 //@   requires nonnil: forall k :: has(remainingIterations, k) ==> remainingIterations[k] != nil
@@ -66,6 +67,10 @@ package zenodb
 //@   ensures stopped_removed: result1 == nil ==> forall k :: old(has(remainingIterations, k)) && !lastretOn(old(remainingIterations[k]), "onValue", 0) ==> !has(remainingIterations, k)
 //@   ensures running_kept: result1 == nil ==> forall k :: old(has(remainingIterations, k)) && lastretOn(old(remainingIterations[k]), "onValue", 0) ==> has(remainingIterations, k) && remainingIterations[k] == old(remainingIterations[k])
 //@   ensures nothing_added: forall k :: has(remainingIterations, k) ==> old(has(remainingIterations, k))
+//@   ensures continues_while_any_running: result1 == nil && (exists k :: has(remainingIterations, k)) ==> result0
+//@   ensures stops_when_none_running: result1 == nil && result0 ==> (exists k :: has(remainingIterations, k))
+//@   loop 0 invariant more_false: !more ==> (forall k :: visited(k) ==> !has(remainingIterations, k))
+//@   loop 0 invariant more_true: more ==> (exists k :: visited(k) && has(remainingIterations, k))
 //@   loop 0 invariant subset: forall k :: has(remainingIterations, k) ==> old(has(remainingIterations, k)) && remainingIterations[k] == old(remainingIterations[k])
 //@   loop 0 invariant unvisited_intact: forall k :: old(has(remainingIterations, k)) && !visited(k) ==> has(remainingIterations, k)
 //@   loop 0 invariant visited_old: forall k :: visited(k) ==> old(has(remainingIterations, k))
